@@ -488,7 +488,7 @@ func primCases(o hx.Opts, emit func(string), oracle string) {
 	// 2. random
 	nSched, nSmall, nBig := 600, 1200, 120
 	if o.Tier == "thorough" {
-		nSched, nSmall, nBig = 5000, 20000, 3000
+		nSched, nSmall, nBig = 20000, 60000, 6000
 	}
 	for i := 0; i < nSched*o.Scale; i++ {
 		g.schedule()
